@@ -141,7 +141,7 @@ def declWhyN (env : IR.Env) (w : Wrappers) (d : IR.Decl) : List String :=
   | .enum _ _ _ _ => []
   | .struct fs _ _ =>
     let ser := E2E.serialised fs
-    (if ser.all fun f => !(tagOptions f.tag).contains "string" then [] else ["struct:string-option"]) ++
+    (if ser.all fun f => !(tagOptions f.tag).contains "string" || Unquote.stringOk env f.ty then [] else ["struct:string-option-on-a-type-the-model-does-not-decide"]) ++
     (if ser.all fun f => (Tags.namePart (Tags.get f.tag "json") == "" || Tags.isValidTag (Tags.namePart (Tags.get f.tag "json"))) then [] else ["struct:invalid-json-name"]) ++
     (if ser.all fun f => RoundTrip.shapeRT f.ty then [] else ["struct:field-shape"]) ++
     (if ser.all fun f => (isUnionTy env f.ty || E2E.noUnion env f.ty) then [] else ["struct:union-under-anonymous-container"]) ++
